@@ -38,6 +38,8 @@ ILL = mpf(10) ** -6   # points whose tolerance exceeds ILL*max(1,|lp|) are not j
 Q_TOL = 1e-8     # |sum w_i exp(LogPdf(x_i)) - 1| (DESIGN.md C14 (iii))
 Q_CONV = 1e-9    # the rule must reproduce the reference integral to this accuracy, else the case is not judged
 REL_STEP = mpf(2) ** -30
+LG_FLOOR = 4     # a log-gamma term counts with max(|value|, LG_FLOOR): Go's math.Lgamma has an absolute error of up to 45 eps on (0,2)
+                 # (measured against mpmath on a grid of 9000 arguments), i.e. K_LP*LG_FLOOR = 64 eps are allowed per lgamma
 
 TOLERANCES = {
     "formula": "|LogPdf - ref| <= K*eps*(sum|additive terms of the textbook formula| + sum_k|theta_k dlp/dtheta_k| + |x dlp/dx|), K=%d, eps=2^-53, "
@@ -96,7 +98,21 @@ def xmul(c, v):
     return c * v
 
 
+def lg(x, sign=1):
+    """a log-gamma term of a formula (marked, see LG_FLOOR)"""
+    return ('lg', sign * mp.loggamma(x))
+
+
+def tval(t):
+    return t[1] if isinstance(t, tuple) else t
+
+
+def tmag(t):
+    return max(abs(t[1]), mpf(LG_FLOOR)) if isinstance(t, tuple) else abs(t)
+
+
 def tsum(terms):
+    terms = [tval(t) for t in terms]
     pos = any(t == PINF for t in terms)
     neg = any(t == NINF for t in terms)
     if pos and neg:
@@ -234,23 +250,23 @@ def _log1m_extra(coef):
 
 def _binom_terms(P, k):
     th, n = P
-    return [mp.loggamma(n + 1), -mp.loggamma(k + 1), -mp.loggamma(n - k + 1), xlog(k, th), xlog(n - k, 1 - th)]
+    return [lg(n + 1), lg(k + 1, -1), lg(n - k + 1, -1), xlog(k, th), xlog(n - k, 1 - th)]
 
 
 def _nb_terms(P, k):
     r, p = P
-    return [mp.loggamma(r + k), -mp.loggamma(k + 1), -mp.loggamma(r), xlog(k, p), xlog(r, 1 - p)]
+    return [lg(r + k), lg(k + 1, -1), lg(r, -1), xlog(k, p), xlog(r, 1 - p)]
 
 
 def _beta_terms(P, x):
     a, b = P
-    return [mp.loggamma(a + b), -mp.loggamma(a), -mp.loggamma(b), xlog(a - 1, x), xlog(b - 1, 1 - x)]
+    return [lg(a + b), lg(a, -1), lg(b, -1), xlog(a - 1, x), xlog(b - 1, 1 - x)]
 
 
 def _betalog_terms(P, x):
     a, b = P
     one_m = -mp.expm1(x)  # 1 - exp(x)
-    return [mp.loggamma(a + b), -mp.loggamma(a), -mp.loggamma(b), xmul(a - 1, x), xlog(b - 1, one_m)]
+    return [lg(a + b), lg(a, -1), lg(b, -1), xmul(a - 1, x), xlog(b - 1, one_m)]
 
 
 def _cat_terms(P, k):
@@ -288,22 +304,22 @@ _reg('gpareto', _gp_support, _gp_terms, cdf=_gp_cdf, extra=_xi_extra, fuzzy=_xi_
 FAMS['gpareto'].cdf_extra = _xi_cdf_extra(False)
 _reg('gev', _gev_support, _gev_terms, cdf=_gev_cdf, extra=_xi_extra, fuzzy=_xi_fuzzy)
 FAMS['gev'].cdf_extra = _xi_cdf_extra(True)
-_reg('gamma', lambda P: (mpf(0), PINF), lambda P, x: [P[0] * mp.log(P[1]), -mp.loggamma(P[0]), xlog(P[0] - 1, x), -P[1] * x],
+_reg('gamma', lambda P: (mpf(0), PINF), lambda P, x: [P[0] * mp.log(P[1]), lg(P[0], -1), xlog(P[0] - 1, x), -P[1] * x],
      cdf=lambda P, x: mp.gammainc(P[0], 0, P[1] * x, regularized=True))
 _reg('beta', lambda P: (mpf(0), mpf(1)), _beta_terms, extra=lambda P, x: abs(P[0] - 1) + abs(P[1] - 1))
 _reg('beta.log', lambda P: (NINF, mpf(0)), _betalog_terms, extra=_betalog_extra)
 _reg('binomial', lambda P: (mpf(0), P[1]), _binom_terms, cont=[0], discrete=True, extra=_log1m_extra(lambda P, k: (P[1] - k, P[0])))
 _reg('negbinomial', lambda P: (mpf(0), PINF), _nb_terms, discrete=True, extra=_log1m_extra(lambda P, k: (P[0], P[1])))
-_reg('poisson', lambda P: (mpf(0), PINF), lambda P, k: [xlog(k, P[0]), -P[0], -mp.loggamma(k + 1)], discrete=True)
+_reg('poisson', lambda P: (mpf(0), PINF), lambda P, k: [xlog(k, P[0]), -P[0], lg(k + 1, -1)], discrete=True)
 _reg('geometric', lambda P: (mpf(0), PINF), lambda P, k: [mp.log(P[0]), xlog(k, 1 - P[0])], discrete=True,
      extra=_log1m_extra(lambda P, k: (k, P[0])))
 _reg('categorical', lambda P: (mpf(0), mpf(len(P) - 1)), _cat_terms, cdf=_cat_cdf, cont=[], discrete=True)
 _reg('chisq', lambda P: (mpf(0), PINF),
-     lambda P, x: [xlog(P[0] / 2 - 1, x), -x / 2, -(P[0] / 2) * mp.log(2), -mp.loggamma(P[0] / 2)],
+     lambda P, x: [xlog(P[0] / 2 - 1, x), -x / 2, -(P[0] / 2) * mp.log(2), lg(P[0] / 2, -1)],
      cdf=lambda P, x: mp.gammainc(P[0] / 2, 0, x / 2, regularized=True))
 _reg('exponential', lambda P: (mpf(0), PINF), lambda P, x: [mp.log(P[0]), -P[0] * x], cdf=lambda P, x: -mp.expm1(-P[0] * x))
 _reg('gengamma', lambda P: (mpf(0), PINF),
-     lambda P, x: [mp.log(P[2]), -P[1] * mp.log(P[0]), -mp.loggamma(P[1] / P[2]), xlog(P[1] - 1, x),
+     lambda P, x: [mp.log(P[2]), -P[1] * mp.log(P[0]), lg(P[1] / P[2], -1), xlog(P[1] - 1, x),
                    -(sexp(P[2] * mp.log(x / P[0])) if x > 0 else mpf(0))])
 _reg('powerlaw', lambda P: (P[1], PINF), lambda P, x: [mp.log(P[0] - 1), -mp.log(P[1]), -P[0] * mp.log(x / P[1])],
      cdf=lambda P, x: -mp.expm1((1 - P[0]) * mp.log(x / P[1])))
@@ -389,7 +405,7 @@ def lp_tol(f, P, x):
     lp = tsum(terms)
     if not mp.isfinite(lp):
         return lp, mpf(0)   # a point of the support without mass: exactly -inf is expected
-    base = mp.fsum(abs(t) for t in terms)
+    base = mp.fsum(tmag(t) for t in terms)
     cont = f.cont if f.cont is not None else list(range(len(P)))
     args = [P[k] if k in cont else None for k in range(len(P))] + [None if f.discrete else x]
 
@@ -1102,7 +1118,7 @@ def mv_ref(e, i):
         cond, q, logdet = r[2], r[3], r[4]
         terms = [mp.loggamma((nu + n) / 2), -mp.loggamma(nu / 2), -logdet / 2, -mpf(n) / 2 * mp.log(nu * mp.pi), -(nu + n) / 2 * mp.log1p(q / nu)]
         lp = mp.fsum(terms)
-        bound = mp.fsum(abs(t) for t in terms) + n * cond + (nu + n) / 2 / (nu + q) * r[5] + (nu + n) / 2 * (q / nu) / (1 + q / nu)
+        bound = mp.fsum(abs(t) for t in terms) + 2 * LG_FLOOR + n * cond + (nu + n) / 2 / (nu + q) * r[5] + (nu + n) / 2 * (q / nu) / (1 + q / nu)
     elif fam == 'skewnormal':
         xi, Om, al, sc = g('xi'), mat_of(g('omega'), n), g('alpha'), g('scale')
         K = mp.matrix(n, n)
@@ -1148,7 +1164,7 @@ def iw_lp(nu, S, si, X, xi_, n):
     lmg = mpf(n * (n - 1)) / 4 * mp.log(mp.pi) + mp.fsum(mp.loggamma(nu / 2 - mpf(j) / 2) for j in range(n))
     terms = [nu / 2 * logdetS, -nu * n / 2 * mp.log(2), -lmg, -(nu + n + 1) / 2 * logdetX, -tr / 2]
     lp = mp.fsum(terms)
-    bound = mp.fsum(abs(t) for t in terms) + n * condS * (1 + nu / 2) + n * condX * ((nu + n + 1) / 2 + tra)
+    bound = mp.fsum(abs(t) for t in terms) + n * LG_FLOOR + n * condS * (1 + nu / 2) + n * condX * ((nu + n + 1) / 2 + tra)
     return lp, bound, max(condS, condX)
 
 
